@@ -11,7 +11,8 @@
 
   * `mvrOf A contest b` — the `Mvr` the overstatement model reads off a manual record `b`;
   * `plurality_comparison_null(_iff)` / `supermajority_comparison_null(_iff)` — what "the assertion is false on the
-    manual records" (`(C03.mvrA …).sum ≤ length / 2`) means in terms of marks on the true ballots;
+    manual records" (`(C03.mvrA …).sum ≤ length / 2`) means in terms of marks on the true ballots
+    (`marks_foundBallots`, `valid_foundBallots`, `wvalid_foundBallots`: counted over the cards that could be found);
   * `comparison_full_risk_limit_cards` — `comparison_full_risk_limit` for cards of ANY type `α` (a card gives a
     manual record `mv x` and a CVR `cv x`; the OTHER assertions may read anything else off the card);
   * `plurality_comparison_risk_limit`, `supermajority_comparison_risk_limit` — the capstones (and their `_zip` forms
@@ -210,6 +211,53 @@ theorem supermajority_comparison_null {α : Type} (useStyle : Bool) (contest w :
         (cards.map cv)).length : ℚ) / 2 :=
   (supermajority_comparison_null_iff useStyle contest w cands f hf0 ballot cv cards).2 hwrong
 
+/-! ### the marks on the found ballots are the marks on the cards that could be examined
+
+A manual record that does not list the contest shows no mark and is no valid vote, so the counts over the found
+ballots are the counts over ALL the cards under audit that could be found (`phantom = false`), style or not: the
+hypothesis `hwrong` of the capstones can be read on either list. -/
+
+theorem foundBallots_eq {α : Type} (useStyle : Bool) (contest : String) (ballot : α → CVR) (cv : α → Cvr)
+    (cards : List α) :
+    foundBallots useStyle contest ballot cv cards
+      = if useStyle then
+          ((audBallots useStyle ballot cv cards).filter (fun b => !b.phantom)).filter (fun b => b.hasContest contest)
+        else (audBallots useStyle ballot cv cards).filter (fun b => !b.phantom) := by
+  unfold foundBallots zeroed
+  cases useStyle
+  · simp
+  · simp only [if_true, List.filter_filter]
+    apply List.filter_congr
+    intro b _
+    cases b.phantom <;> cases b.hasContest contest <;> rfl
+
+theorem marks_foundBallots {α : Type} (useStyle : Bool) (contest x : String) (ballot : α → CVR) (cv : α → Cvr)
+    (cards : List α) :
+    C02.marks contest x (foundBallots useStyle contest ballot cv cards)
+      = C02.marks contest x ((audBallots useStyle ballot cv cards).filter (fun b => !b.phantom)) := by
+  rw [foundBallots_eq]
+  cases useStyle
+  · rfl
+  · exact C02.marks_filter_hasContest contest x _
+
+theorem valid_foundBallots {α : Type} (useStyle : Bool) (contest : String) (cands : List String) (ballot : α → CVR)
+    (cv : α → Cvr) (cards : List α) :
+    C02.valid contest cands (foundBallots useStyle contest ballot cv cards)
+      = C02.valid contest cands ((audBallots useStyle ballot cv cards).filter (fun b => !b.phantom)) := by
+  rw [foundBallots_eq]
+  cases useStyle
+  · rfl
+  · exact C02.valid_filter_hasContest contest cands _
+
+theorem wvalid_foundBallots {α : Type} (useStyle : Bool) (contest : String) (cands : List String) (w : String)
+    (ballot : α → CVR) (cv : α → Cvr) (cards : List α) :
+    C02.wvalid contest cands w (foundBallots useStyle contest ballot cv cards)
+      = C02.wvalid contest cands w ((audBallots useStyle ballot cv cards).filter (fun b => !b.phantom)) := by
+  rw [foundBallots_eq]
+  cases useStyle
+  · rfl
+  · exact C02.wvalid_filter_hasContest contest cands w _
+
 /-! ### `comparison_full_risk_limit` for cards of any type -/
 
 /-- what `comparison_full_risk_limit` establishes about the data of the population (the three hypotheses of
@@ -333,7 +381,8 @@ theorem comparison_full_risk_limit_cards {α : Type} (mv : α → Mvr) (cv : α 
 * `hwrong`: on the manual records the reported outcome is wrong (or a tie): over the FOUND ballots of the cards under
   audit `w` has at most as many marks as `l`, an unfindable card and (under style) a record lacking the contest
   counting as one more mark for `l`.  In particular `marks w F ≤ marks l F` suffices
-  (`plurality_comparison_risk_limit_found`).
+  (`plurality_comparison_risk_limit_found`); the marks over the found ballots are the marks over all the cards under
+  audit that could be found (`marks_foundBallots`: a record lacking the contest shows no mark).
 
 Then the probability, over all orders in which the cards are drawn, that the audit is EVER reported complete is at
 most the contest's risk limit — whatever the CVRs say, whatever the other assertions, contests and tests are. -/
